@@ -34,7 +34,7 @@ var c09Bad = reg("C09", "c09-malformed", checkC09Bad)
 func xmlCfg() xmodel.GenCfg {
 	return xmodel.GenCfg{MaxDepth: 4, MaxKids: 4, MaxTop: 2, XMLSafe: true, XMLEverywhere: true, Undeclare: true,
 		Names:  []string{"a", "b", "c", "a-b", "a.b", "a1", "é", "_u", "child", "div"},
-		Values: []string{"1", "2", "abc", "x y", " lead", "trail ", "<&>", "a\"b", "a'b", "é€", "𝄞", "]]>", "&amp;", "\t", "line\nbreak", "10"}}
+		Values: []string{"1", "2", "abc", "x y", " lead", "trail ", "<&>", "a\"b", "a'b", "é€", "𝄞", "]]>", "&amp;", "\t", "line\nbreak", "10", "жук", "ÿþ", "naïve"}}
 }
 
 type xmlSer struct {
@@ -42,6 +42,12 @@ type xmlSer struct {
 	sb     strings.Builder
 	feats  map[string]bool
 	latin1 bool // characters must fit an 8-bit charset: use numeric references above 0x7F
+	cm     *charmap.Charmap
+}
+
+func canEncode(cm *charmap.Charmap, r rune) bool {
+	_, ok := cm.EncodeRune(r)
+	return ok
 }
 
 func (s *xmlSer) coin(label string, n int) bool { return rapid.IntRange(0, n-1).Draw(s.t, label) == 0 }
@@ -69,6 +75,9 @@ func (s *xmlSer) escText(v string, attr bool, quote byte) string {
 			fmt.Fprintf(&sb, "&#%d;", r)
 		case !attr && r == '\r':
 			sb.WriteString("&#13;") // a literal CR would be normalised to LF
+		case s.latin1 && r > 0x7F && s.cm != nil && s.coin("literal8bit", 2) && canEncode(s.cm, r):
+			sb.WriteRune(r) // the charset has this character: write it as a byte of that charset
+			s.feats["8-bit-character"] = true
 		case s.latin1 && r > 0x7F:
 			fmt.Fprintf(&sb, "&#x%X;", r)
 			s.feats["reference"] = true
@@ -180,6 +189,7 @@ func serialise(t *rapid.T, d *xmodel.Doc, utf8Only bool) ([]byte, string, map[st
 		enc = "UTF-8"
 	}
 	s.latin1 = enc != "" && !strings.EqualFold(enc, "UTF-8")
+	s.cm = encodings[enc]
 	if s.latin1 {
 		s.feats["non-utf8-encoding"] = true
 	}
@@ -372,7 +382,8 @@ func TestC09(t *testing.T) {
 				return
 			}
 			i := ends[rapid.IntRange(0, len(ends)-1).Draw(t, "which")]
-			c.Bytes, c.How = []byte(text[:i]+"&undefined;"+text[i:]), "undefined entity"
+			ent := []string{"&undefined;", "&nbsp;", "&copy;", "&eacute;", "&hellip;", "&x;", "&amp", "&#xZZ;", "&;"}[rapid.IntRange(0, 8).Draw(t, "entity")]
+			c.Bytes, c.How = []byte(text[:i]+ent+text[i:]), "undefined entity or malformed reference"
 		case 4:
 			if len(ends) == 0 {
 				st.Discard("no-end-tag")
